@@ -1562,7 +1562,9 @@ class Parameter(_ParameterBase):
             # The link is only installed (or removed) once the value has
             # been accepted, so that a rejected assignment has no effect.
             if ref is not None:
-                update_ref = partial(self.owner.param._update_ref, name, ref)
+                # (the task of an asynchronous reference was just scheduled
+                # and has already superseded the previous one)
+                update_ref = partial(self.owner.param._update_ref, name, ref, not is_async)
             elif name in refs and not syncing:
                 update_ref = partial(self.owner.param._update_ref, name, Undefined)
             if is_async or val is Undefined:
@@ -2162,9 +2164,9 @@ class Parameters:
                 owner.param._watch(self_._sync_refs, list(set(pnames)), precedence=-1)
             ))
 
-    def _update_ref(self_, name, ref):
+    def _update_ref(self_, name, ref, cancel=True):
         param_private = self_.self._param__private
-        if name in param_private.async_refs:
+        if cancel and name in param_private.async_refs:
             param_private.async_refs.pop(name).cancel()
         for _, watcher in param_private.ref_watchers:
             dep_obj = watcher.cls if watcher.inst is None else watcher.inst
@@ -2198,7 +2200,7 @@ class Parameters:
             if new_val is Skip or new_val is Undefined:
                 continue
             elif is_async:
-                async_executor(partial(self_._async_ref, pname, new_val))
+                self_._schedule_async_ref(pname, new_val)
                 continue
 
             updates[pname] = new_val
@@ -2219,9 +2221,23 @@ class Parameters:
         except Skip:
             value = Undefined
         if is_async:
-            async_executor(partial(self_._async_ref, pobj.name, value))
+            self_._schedule_async_ref(pobj.name, value)
             value = None
         return ref, deps, value, is_async
+
+    def _schedule_async_ref(self_, pname, awaitable):
+        """
+        Schedule the task that awaits an asynchronous reference and register
+        it as the one driving the parameter, superseding (and cancelling)
+        any task scheduled before it, whether or not that one has started.
+        """
+        async_refs = self_.self._param__private.async_refs
+        previous = async_refs.pop(pname, None)
+        if previous is not None:
+            previous.cancel()
+        task = async_executor(partial(self_._async_ref, pname, awaitable))
+        if task is not None and not task.done():
+            async_refs[pname] = task
 
     async def _async_ref(self_, pname, awaitable):
         if not self_.self._param__private.initialized:
@@ -2230,26 +2246,36 @@ class Parameters:
 
         import asyncio
         current_task = asyncio.current_task()
-        running_task = self_.self._param__private.async_refs.get(pname)
-        if running_task is None:
-            self_.self._param__private.async_refs[pname] = current_task
-        elif current_task is not running_task:
-            self_.self._param__private.async_refs[pname].cancel()
+        async_refs = self_.self._param__private.async_refs
+        if pname not in async_refs:
+            # Not registered when it was scheduled (e.g. rescheduled while
+            # the object was being initialized, or a custom executor)
+            async_refs[pname] = current_task
+
+        def superseded():
+            return async_refs.get(pname) is not current_task
+
         try:
+            # The awaitable is awaited outside of the syncing scope: while it
+            # is pending, assigning a plain value must still end this link.
             if isinstance(awaitable, types.AsyncGeneratorType):
                 async for new_obj in awaitable:
+                    if superseded():
+                        break
                     with _syncing(self_.self, (pname,)):
                         self_.update({pname: new_obj})
             else:
-                with _syncing(self_.self, (pname,)):
-                    try:
-                        self_.update({pname: await awaitable})
-                    except Skip:
-                        pass
+                try:
+                    new_obj = await awaitable
+                except Skip:
+                    return
+                if not superseded():
+                    with _syncing(self_.self, (pname,)):
+                        self_.update({pname: new_obj})
         finally:
             # Ensure we clean up but only if the task matches the currrent task
-            if self_.self._param__private.async_refs.get(pname) is current_task:
-                del self_.self._param__private.async_refs[pname]
+            if async_refs.get(pname) is current_task:
+                del async_refs[pname]
 
     @classmethod
     def _changed(cls, event):
